@@ -1159,14 +1159,13 @@ impl PersistentHnswIndex {
         let results: Vec<SearchResult> = ctx
             .results()
             .iter()
-            .map(|c| {
-                let node = self.read_node(c.node_id).ok();
-                let row_id = node.map(|n| n.row_id()).unwrap_or(0);
-                SearchResult {
+            .filter_map(|c| {
+                let node = self.read_node(c.node_id).ok()?;
+                Some(SearchResult {
                     node_id: c.node_id,
-                    row_id,
+                    row_id: node.row_id(),
                     distance: c.distance,
-                }
+                })
             })
             .collect();
 
